@@ -277,6 +277,36 @@ def accept_event_illegal(m, ver):
     return None
 ABANDON_OPS = ['Kt', 'Kt', 'Kt', 'Kd', 'Km', 'Rt', 'Rt', 'Rd', 'Rm', 'St', 'Sb', 'Cn', 'C3001', 'C1001', 'Ks', 'Kb']
 SMALL_OPS = ['A000', 'A100', 'Cn', 'C3001', 'C999', 'St', 'Sb', 'Rt', 'Rd', 'Rm', 'H403', 'X', 'B', 'Ewsd1001']
+# ops Wt / Wb: send_text / send_data called with a payload of the WRONG TYPE (step['bad']) - the ARGUMENT TYPES of the send entry points are a
+# dimension of their own, crossed with the state of the session (handshake / accepted / closed by the app / client gone)
+BAD_TEXT = ['bytes', 'bytes', 'bytearray', 'memoryview', 'int', 'none', 'none', 'list']          # what send_text() must refuse
+BAD_DATA = ['str', 'str', 'strsub', 'list', 'none', 'none', 'int']                                # what send_data() must refuse
+ARG_STATES = ['handshake', 'accepted', 'closed_by_app', 'client_gone', 'pump_saw_disconnect']
+
+
+class StrSub(str):
+    """an application's own str subclass: an instance of str, so send_text() takes it (and send_data() refuses it)"""
+
+
+def bad_payload(kind, pay):
+    """the wrongly typed object handed to send_text / send_data"""
+    if kind == 'bytes': return bytes(pay['data'])
+    if kind == 'bytearray': return bytearray(pay['data'])
+    if kind == 'memoryview': return memoryview(bytes(pay['data']))
+    if kind == 'int': return 7
+    if kind == 'none': return None
+    if kind == 'list': return list(pay['data'])          # bytes(list of ints) would "work" if nobody checked
+    if kind == 'str': return pay['text']
+    if kind == 'strsub': return StrSub(pay['text'])
+    raise AssertionError(kind)
+
+
+def arg_step(rnd, st):
+    """the argument-type variant of a send step: which wrong type (Wt / Wb), or a str SUBCLASS handed to send_text (valid)"""
+    if st['tok'] == 'Wt': st['bad'] = rnd.choice(BAD_TEXT)
+    elif st['tok'] == 'Wb': st['bad'] = rnd.choice(BAD_DATA)
+    elif st['tok'] == 'St' and rnd.random() < 0.1: st['sub'] = True
+    return st
 
 
 def foreign_want(tok):
@@ -460,7 +490,7 @@ def default_pay(j):
     return {'text': f'out{j}', 'data': bytes([j % 256, 0xff, 0]), 'doc': {'j': j}}
 
 
-WP_OPS = ['St', 'St', 'Sb', 'Sb', 'Sx', 'Sn', 'Rt', 'Rt', 'Rd', 'Rd', 'Rm', 'Rm', 'Rm', 'A000', 'Cn', 'C1001', 'B', 'Ewsd4000']
+WP_OPS = ['St', 'St', 'Sb', 'Sb', 'Sx', 'Sn', 'Rt', 'Rt', 'Rd', 'Rd', 'Rm', 'Rm', 'Rm', 'A000', 'Cn', 'C1001', 'B', 'Ewsd4000', 'Wt', 'Wb']
 
 
 def gen_random(rnd):
@@ -471,6 +501,7 @@ def gen_random(rnd):
         out = [{'tok': rnd.choice(pool), 'catch': lvl(), 'var': rnd.randrange(4), 'pay': gen_pay(rnd)} for _ in range(n)]
         for st in out:
             if st['tok'] == 'Ag': st['acc'] = gen_accept_args(rnd)
+            arg_step(rnd, st)
             if st['tok'][0] == 'E':
                 if rnd.random() < 0.25: st['tok'] = rnd.choice(FOREIGN)
                 if rnd.random() < 0.4: st['catch'] = 0        # nobody expects a "disconnected" error on a connected socket
@@ -503,13 +534,23 @@ def gen_random(rnd):
               'status': [('T204', 0)], 'raise': [('X', 0)], 'nows': [], 'nows_http': [('H410', 0)], 'foreign': [(rnd.choice(FOREIGN), 0)]}[kind]
         custom = {'ws': not kind.startswith('nows'), 'steps': [{'tok': t, 'catch': c, 'var': 0, 'pay': gen_pay(rnd)} for t, c in hs]}
     binh = rnd.random() < 0.5
+    mwreq = steps(rnd.randint(0, 2), OPS, 0.8) if mw and rnd.random() < 0.6 else []
+    mwres = steps(rnd.randint(0, 2), OPS, 0.8) if mw and rnd.random() < 0.6 else []
+    argtypes = rnd.random() < 0.12
+    if argtypes:
+        # wrongly typed sends (and unserialisable media) at random positions of the responder / middleware / handler scripts: whatever state the
+        # session is in by then (before accept, accepted, closed, client gone); the kind-level model has no such op, so only Wp sees these sessions
+        for _ in range(rnd.choice([1, 1, 2, 3])):
+            target = rnd.choice([script, script, script, mwreq if mwreq else script, mwres if mwres else script] + ([custom['steps']] if custom and custom['ws'] and custom['steps'] else []))
+            target.insert(rnd.randrange(len(target) + 1), arg_step(rnd, {'tok': rnd.choice(['Wt', 'Wt', 'Wb', 'Wb', 'Sx']), 'catch': rnd.choice([1, 1, 2, 2, 0]),
+                                                                        'var': rnd.randrange(4), 'pay': gen_pay(rnd)}))
     return {
         'ver': rnd.choice(['2.0', '2.1', '2.2', '2.3', '2.4']), 'q': q, 'first': 0 if rnd.random() < 0.03 else 1,
         'route': rnd.choice(['r'] * 8 + ['u', 'n']),
-        'mwreq': steps(rnd.randint(0, 2), OPS, 0.8) if mw and rnd.random() < 0.6 else [],
-        'mwres': steps(rnd.randint(0, 2), OPS, 0.8) if mw and rnd.random() < 0.6 else [],
+        'mwreq': mwreq,
+        'mwres': mwres,
         'mw_present': mw, 'script': script, 'custom': custom, 'inbox': inbox, 'starve': starve,
-        'events': [gen_event(rnd, t, binh) for t in inbox], 'wp_only': False,
+        'events': [gen_event(rnd, t, binh) for t in inbox], 'wp_only': argtypes,
         'fail': rnd.choice([None, None, None, 0, 1, 2, 3, 4]), 'fault': rnd.choice(FAULTS),
         'refuse': rnd.choice(REFUSE_SETS) if rnd.random() < 0.3 else [],
         'err': rnd.choice([1011, 1011, 1011, 4000, 999, 1005, 1006, 1007, 1014, 1015, 1999, 2000, 1004, 1003]), 'binh': binh,
@@ -548,7 +589,7 @@ def gen_payload_session(rnd):
     inbox.append(rnd.choice(DISC))
     script = [{'tok': 'A000', 'catch': 1, 'var': 0, 'pay': gen_pay(rnd)}]
     for _ in range(rnd.randint(1, 10)):
-        script.append({'tok': rnd.choice(WP_OPS), 'catch': rnd.choice([1, 1, 1, 2, 2, 0]), 'var': rnd.randrange(4), 'pay': gen_pay(rnd)})
+        script.append(arg_step(rnd, {'tok': rnd.choice(WP_OPS), 'catch': rnd.choice([1, 1, 1, 2, 2, 0]), 'var': rnd.randrange(4), 'pay': gen_pay(rnd)}))
         if script[-1]['tok'][0] == 'E':
             script[-1]['catch'] = rnd.choice([0, 0, 1, 2])
     return {
@@ -606,6 +647,39 @@ def gen_abandon_directed():
                                'script': [{'tok': t, 'catch': 1, 'var': v, 'pay': default_pay(j)} for j, (t, v) in enumerate(script)],
                                'custom': None, 'inbox': list(inbox), 'events': [default_event(t, k) for k, t in enumerate(inbox)], 'wp_only': False,
                                'starve': 'late', 'fail': None, 'fault': 'other', 'err': 1011, 'binh': False, 'yields': 777 + l + q}
+
+
+def gen_argtype_directed():
+    """every ARGUMENT TYPE of the send entry points x every STATE of the session: send_text(bytes / bytearray / memoryview / int / None / list / a str
+    subclass), send_data(str / a str subclass / list / None / int / bytearray / memoryview), send_media(an object the serializer rejects, TEXT and
+    BINARY) on a socket that is in the handshake, accepted, closed by the application, left by the client (observed by a receive), or accepted with the
+    disconnect seen by the pump only; the step catches the documented errors (1: a TypeError escapes to the framework) or everything (2), and a
+    well-formed send_text follows, which shows that the refused call left the socket as it was; x queue 0 / 4"""
+    ops = ([('Wt', 0, {'bad': b}) for b in ('bytes', 'bytearray', 'memoryview', 'int', 'none', 'list')] + [('St', 0, {'sub': True}), ('St', 0, {})] +
+           [('Wb', 0, {'bad': b}) for b in ('str', 'strsub', 'list', 'none', 'int')] + [('Sb', 0, {}), ('Sb', 2, {}), ('Sb', 3, {})] +
+           [('Sx', 0, {}), ('Sx', 1, {})])
+    j = 0
+    for state in ARG_STATES:
+        for q in (0, 4):
+            if state == 'pump_saw_disconnect' and q == 0: continue
+            for tok, var, extra in ops:
+                for catch in (1, 2):
+                    j += 1
+                    op = dict({'tok': tok, 'catch': catch, 'var': var, 'pay': default_pay(j)}, **extra)
+                    mk = lambda t, c=1, v=0: {'tok': t, 'catch': c, 'var': v, 'pay': default_pay(j + 1)}
+                    inbox = ['w', 't0', 'd1001']          # the client is there and stays idle: no disconnect is ever delivered
+                    if state == 'handshake': script = [op, mk('A000'), mk('St')]
+                    elif state == 'accepted': script = [mk('A000'), op, mk('St')]
+                    elif state == 'closed_by_app': script = [mk('A000'), mk('C3001' if j % 2 else 'Cn'), op, mk('St')]
+                    elif state == 'client_gone':
+                        inbox = ['d4000'] if j % 2 else ['dn']
+                        script = [mk('A000'), mk('Rt'), op, mk('St')]
+                    else:
+                        inbox = ['d1001']
+                        script = [mk('A000'), op, mk('St')]
+                    yield {'ver': '2.3' if j % 2 else '2.1', 'q': q, 'first': 1, 'route': 'r', 'mwreq': [], 'mwres': [], 'mw_present': False,
+                           'script': script, 'custom': None, 'inbox': inbox, 'events': [default_event(t, k) for k, t in enumerate(inbox)], 'wp_only': True,
+                           'starve': 'late', 'fail': None, 'fault': 'other', 'err': 1011, 'binh': bool(j % 3 == 0), 'yields': 9000 + j}
 
 
 def gen_exhaustive(maxlen):
